@@ -17,6 +17,8 @@ import common
 import impl
 from props import visitlib as vl
 from props import c08cross as cx
+from props import c08layouts as ly
+from props import c08shapes as sh
 from props import pipeline as pl
 
 PID = "C08"
@@ -241,9 +243,13 @@ def build_target(rng, callers_first):
     return src, cs
 
 
-def run_cli(project):
+def run_cli(project, extra_path=None):
+    env = dict(os.environ, PYTHONHASHSEED="0")
+    if extra_path is not None:
+        # a further search-path entry AFTER whatever selects the rattr under test
+        env["PYTHONPATH"] = os.pathsep.join(x for x in (env.get("PYTHONPATH"), str(extra_path)) if x)
     p = subprocess.run([sys.executable, "-m", "rattr", "-w", "none", "-o", "results", "target.py"], cwd=str(project),
-                       capture_output=True, text=True, timeout=180, env=dict(os.environ, PYTHONHASHSEED="0"))
+                       capture_output=True, text=True, timeout=180, env=env)
     return p.returncode, p.stdout, p.stderr
 
 
@@ -368,6 +374,249 @@ def cx_definitions(files, r):
     return out
 
 
+
+# ------------------------------------------------------------------ family S: binder x parameter-list shape x call form
+
+
+def shape_head():
+    defs = "\n".join(DEFS[k] for k in ("fn", "lam", "cls", "static", "decoy_node"))
+    return IMPORTS + sh.SHAPE_EXTRA_IMPORTS + sh.SHAPE_EXTRA_DEFS + defs + "\n"
+
+
+def shape_case(r):
+    """self-contained replay: target.py = prelude + caller, next to `files`"""
+    return {"caller": r["src"], "binder": r["binder"], "parameter-list": r["params"], "shape": r["shape"],
+            "shadowing-parameter": None if r["control"] else r["x"], "form": r["form"],
+            "row": [r["fclass"], r["fkind"], "none" if r["control"] else r["shadow"]],
+            "target.py prelude": shape_head(), "files": dict(PKG_FILES, **{"mod.py": MOD})}
+
+
+def judge_shapes(res, results, rows, viol):
+    """`viol`: the violations found, with a simplicity key (the caller reports the SIMPLEST row of a signature first)"""
+    seen = set()
+
+    def violation(r, v):
+        viol.append(((len(r["params"]), list(sh.BINDERS).index(r["binder"]) if r["binder"] in sh.BINDERS else 99, int(r["name"][1:])), v))
+
+    for r in rows:
+        res.evaluations += 1
+        res.nontrivial.add(common.digest(["s", r["binder"], r["shape"], r["form"]]))
+        seen.add((r["binder"], r["shape"], r["form"]))
+        sd = r["shape_detail"]
+        res.count("shape-row:binder:" + r["binder"])
+        res.count("shape-row:parameter:" + ("control(no shadowing parameter)" if r["control"] else
+                                            sh.KIND_TEXT[sd["xkind"]] + (":ast-args-empty" if sh.args_empty(sd) else "")))
+        entry = results.get(r["key"])
+        if entry is None:
+            violation(r, {"signature": "caller-missing-from-results", "case": shape_case(r)})
+            continue
+        got = marks_of(entry)
+        exp = r["expect"]
+        if exp is None:
+            if got:
+                sig = sh.signature(r, False)
+                res.count("verdict:" + sig)
+                violation(r, {"signature": sig, "case": shape_case(r), "marks": got})
+            else:
+                res.count("verdict:holds:shape:not-inlined")
+            continue
+        want = exp[1] if isinstance(exp, tuple) else exp
+        wrong = [g for g in got if not g.endswith("." + want)]
+        if wrong:
+            sig = sh.signature(r, True)
+            res.count("verdict:" + sig)
+            violation(r, {"signature": sig, "case": shape_case(r), "marks": got})
+        elif not got and not isinstance(exp, tuple):
+            sig = sh.signature(r, False)
+            res.count("verdict:" + sig)
+            violation(r, {"signature": sig, "case": shape_case(r), "marks": got})
+        else:
+            res.count("verdict:holds:shape:control:" + ("inlined" if got else "optional-not-inlined"))
+    return seen
+
+
+def shapes_correspondence(res, model, project, rows):
+    """Tie B for the shape family: the real FunctionAnalyser on every marked caller (def / async def / the lambda of a
+    module-level `name = lambda …` / the method of the class binders) against the Lean model `FnA.analyse` (op
+    `analyse_fn`), in mini-modules of 40 callers (the root context is part of every request)."""
+    head = shape_head()
+    reqs, metas = [], []
+    with impl.in_dir(project):
+        for i in range(0, len(rows), 40):
+            grp = rows[i:i + 40]
+            tree, ctx = vl.prepare(head + "\n".join(r["src"] for r in grp))
+            snap = vl.root_snapshot(ctx)
+            snap0 = common.canon(snap)
+            by_name = {}
+            for n in tree.body:
+                nm = getattr(n, "name", None) or (n.targets[0].id if isinstance(n, ast.Assign) and
+                                                   isinstance(n.targets[0], ast.Name) else None)
+                if nm is not None:
+                    by_name[nm] = n
+            for r in grp:
+                node = by_name[r["name"]]
+                if isinstance(node, ast.ClassDef):
+                    node = next(n for n in node.body if isinstance(n, ast.FunctionDef))
+                elif isinstance(node, ast.Assign):
+                    node = node.value
+                body = node.body if not isinstance(node, ast.Lambda) else [node.body]
+                reqs.append(("analyse_fn", {"env": vl.env_json(), "root": snap, "module": "target",
+                                            "params": vl.params_json(node.args), "body": [vl.enc(b) for b in body]}))
+                im, _ = vl.analyse_function(node, ctx)
+                metas.append((r, im))
+            if snap0 != common.canon(vl.root_snapshot(ctx)):
+                res.internal_errors.append({"what": "analysing a function changed the shared root context", "group": i})
+    chunks = [reqs[i:i + 400] for i in range(0, len(reqs), 400)]
+    with ThreadPoolExecutor(max_workers=6) as ex:
+        outs = [o for chunk in ex.map(model.batch, chunks) for o in chunk]
+    for (r, im), mo in zip(metas, outs):
+        res.evaluations += 1
+        res.count("in-process:shape-row")
+        d = "model error: " + str(mo["__error__"]) if "__error__" in mo else vl.compare(im, mo)
+        if d is not None:
+            res.disagreements.append({"case": {"caller": r["src"], "binder": r["binder"], "shape": r["shape"]}, "diff": d[:1500]})
+
+
+# ------------------------------------------------------------------ family L: the file-system layout behind `m`
+
+
+def layout_case(layout, depth, files, r):
+    return {"layout": layout, "module": "lp.lm" if depth else "lm", "spelling": r["spelling"], "call-made-in": r["where"],
+            "files": ly.single_row_project(layout, depth, r)}
+
+
+def judge_layout(res, layout, depth, files, rows, d, rc, out, err):
+    bound = ly.python_binds(d, depth)
+    want = ly.expected_mark(files, bound)
+    res.count(f"layout:{layout}:python-binds-{bound[0]}")
+    results = json.loads(out) if rc == 0 else None
+    for r in rows:
+        res.evaluations += 1
+        res.nontrivial.add(common.digest(["l", layout, depth, r["spelling"], r["where"]]))
+        res.count("layout-row:" + r["where"])
+        case = layout_case(layout, depth, files, r)
+        case["python binds"] = list(bound)
+        if results is None:
+            if layout in ly.HAS_PLAIN_DIR:
+                # no results at all: nothing was inlined.  (the C13 finding `module-shadowed-by-non-package-directory`)
+                last = (err.strip().splitlines() or [""])[-1]
+                res.count("verdict:holds:layout:no-results:" + ("fatal-unable-to-find-module" if "unable to find module" in last
+                                                                 else "crash:" + last.split(":")[0][:40]))
+            else:
+                res.violations.append({"signature": f"cli-failed:layout:{layout}:rc={rc}", "case": case, "stderr": err[-800:]})
+            continue
+        entry = results.get(r["name"])
+        if entry is None:
+            res.violations.append({"signature": "caller-missing-from-results", "case": case})
+            continue
+        got = marks_of(entry)
+        wrong = [g for g in got if want is None or not g.endswith("." + want)]
+        optional = layout in ly.HAS_PLAIN_DIR or r["spelling"].endswith("-as-g")
+        if wrong:
+            sig = f"inlined-from-a-file-python-does-not-bind:{layout}:{r['fclass']}"
+            res.count("verdict:" + sig)
+            res.violations.append({"signature": sig, "case": case, "marks": got, "expected": want})
+        elif want is not None and not got and not optional:
+            sig = f"not-inlined-though-python-resolves-it:layout:{layout}:{r['spelling']}"
+            res.count("verdict:" + sig)
+            res.violations.append({"signature": sig, "case": case, "marks": got, "expected": want})
+        else:
+            res.count("verdict:holds:layout:" + ("nothing-to-inline" if want is None else "inlined-from-the-bound-file" if got
+                                                 else "optional-not-inlined"))
+
+
+def judge_two_roots(res, l0, l1, files0, files1, rows, d, rc, out, err):
+    bound = ly.python_binds_two_roots(d / "proj", d / "r1")
+    want = ly.expected_mark_two_roots(files0, files1, bound)
+    combo = f"{l0 or 'absent'}-before-{l1}"
+    res.count(f"layout:two-roots:{combo}:python-binds-{bound[0]}-of-entry-{bound[1]}")
+    results = json.loads(out) if rc == 0 else None
+    for r in rows:
+        res.evaluations += 1
+        res.nontrivial.add(common.digest(["l2", l0, l1, r["spelling"]]))
+        res.count("layout-row:two-path-entries")
+        case = {"layout": {"project directory (first path entry)": l0, "second path entry (PYTHONPATH)": l1},
+                "spelling": r["spelling"], "files": {"proj/" + k: v for k, v in files0.items()} |
+                {"r1/" + k: v for k, v in files1.items()}, "python binds": list(bound)}
+        if results is None:
+            if l0 in ly.HAS_PLAIN_DIR:
+                res.count("verdict:holds:layout:no-results:two-path-entries")
+            else:
+                res.violations.append({"signature": f"cli-failed:layout:two-roots:{combo}:rc={rc}", "case": case, "stderr": err[-800:]})
+            continue
+        entry = results.get(r["name"])
+        if entry is None:
+            res.violations.append({"signature": "caller-missing-from-results", "case": case})
+            continue
+        got = marks_of(entry)
+        wrong = [g for g in got if want is None or not g.endswith("." + want)]
+        if wrong:
+            sig = f"inlined-from-a-file-python-does-not-bind:two-roots:{combo}:{r['fclass']}"
+            res.count("verdict:" + sig)
+            res.violations.append({"signature": sig, "case": case, "marks": got, "expected": want})
+        elif want is not None and not got and l0 not in ly.HAS_PLAIN_DIR:
+            sig = f"not-inlined-though-python-resolves-it:layout:two-roots:{combo}:{r['spelling']}"
+            res.count("verdict:" + sig)
+            res.violations.append({"signature": sig, "case": case, "marks": got, "expected": want})
+        else:
+            res.count("verdict:holds:layout:" + ("nothing-to-inline" if want is None else "inlined-from-the-bound-file" if got
+                                                 else "optional-not-inlined"))
+
+
+def layouts_correspondence(res, model, projects):
+    """Tie B for the layouts: the real `find_module_name_and_spec` in the project directory against the Lean model of the
+    locator (op `locator`, RattrModel/Locator.lean), and the Lean SPEC of Python's precedence (`Spec.firstMatch`: first path
+    entry with a package, then a module file; a directory without __init__.py has no file) against CPython's finders.
+    `projects`: (label, depth, [(root directory, its files)], what CPython binds as a relative file of root i)."""
+    from rattr.module_locator import util as U
+
+    reqs, metas = [], []
+    for label, depth, roots, bound in projects:
+        mod = ["lp", "lm"] if depth else ["lm"]
+        queries = [mod + ["f"], mod, mod + ["helper", "f"], mod + ["f", "f"]]
+        trees = [sorted(rel.split("/") for rel in files) for _, files in roots]
+        dirs = [Path(d).resolve() for d, _ in roots]
+        old_path = list(sys.path)
+        with impl.in_dir(str(roots[0][0])):
+            sys.path[1:1] = [str(d) for d in dirs[1:]]
+            try:
+                impl.clear_caches_fast()
+                im = []
+                for q in queries:
+                    name, spec = U.find_module_name_and_spec(".".join(q))
+                    if name is None:
+                        im.append(None)
+                        continue
+                    o = Path(spec.origin).resolve()
+                    origin = {"ext": str(o)}
+                    for i, d in enumerate(dirs):
+                        if d in o.parents:
+                            origin = {"file": [i, list(o.relative_to(d).parts)]}
+                            break
+                    im.append({"module": name.split("."), "spec": {"name": spec.name.split("."), "origin": origin}})
+            finally:
+                sys.path[:] = old_path
+                impl.clear_caches_fast()
+        reqs.append(("locator", {"roots": trees, "stdlib": [], "ops": [{"k": "find", "q": q} for q in queries]}))
+        metas.append((label, queries, im, bound))
+    for (label, queries, im, bound), mo in zip(metas, model.batch(reqs)):
+        if "__error__" in mo:
+            res.disagreements.append({"case": {"layout": label}, "diff": "model error: " + str(mo["__error__"])[:400]})
+            continue
+        for q, i, m in zip(queries, im, mo):
+            res.evaluations += 1
+            res.count("in-process:layout-locate:" + ("found" if i else "not-found"))
+            if i != m["found"]:
+                res.disagreements.append({"case": {"layout": label, "module": ".".join(q)},
+                                          "diff": f"find_module_name_and_spec: impl={i} model={m['found']}"})
+        # the Lean spec of "what Python binds" vs CPython (query 1 = the module itself)
+        sf = mo[1]["specFirst"] if mo[1]["specLongest"] == queries[1] else None
+        spec_file = None if sf is None else [sf[0], "/".join(sf[1])]
+        if spec_file != bound:
+            res.internal_errors.append({"what": "Lean Spec.firstMatch disagrees with CPython's finders", "layout": label,
+                                        "spec": spec_file, "cpython": bound})
+
+
 # ------------------------------------------------------------------ Tie B for the cross-module resolution
 
 
@@ -477,8 +726,34 @@ def run(tier, seed, build):
                 "variant run through the real CLI (-o results); the callee's distinctive attribute appears in the caller's "
                 "entry iff the callee was inlined. In-process: every caller (target and followed import) against the Lean "
                 "model of the call-target ladder; every Func/Class call of the cross-module project's real environment "
-                "against the Lean model of __resolve_target_and_ir. non-trivial = distinct (caller row, order)")
+                "against the Lean model of __resolve_target_and_ir. SHAPE FAMILY (props/c08shapes.py), exhaustive in both "
+                "tiers: binder {def, async def, def enclosing a nested def / a lambda, nested def (1, 2 deep, async), lambda at "
+                "depth 1, at depth 2 (outer / inner binds), inside / around an argument-less thunk, around a lambda with a "
+                "default, named module-level lambda, lambda in a nested def / returned / in an initialiser / in a static "
+                "method / in a comprehension / as keyword argument / assigned to a local name, the factory lambda of "
+                "collections.defaultdict (2 spellings), the key lambda of sorted} x parameter-list SHAPE {the shadowing name "
+                "positional-only / regular / keyword-only / *args / **kwargs, with and without default, alone or next to one "
+                "parameter of each other kind or of all kinds, before / after a parameter of its own kind — 34 of the 66 "
+                "shapes have an EMPTY ast.arguments.args} x call form {bare function / lambda / class / from-import, dotted "
+                "module import / alias / from a import b / import a.b as x / from a.b import c as x / un-aliased import a.b "
+                "(+ import a) / static method}, plus controls (the same binders with parameter lists of every kind WITHOUT "
+                "the name: the callee must be inlined); a seed-rotating selection (every binder x shape pair) also goes "
+                "through the Lean model of the function analyser. LAYOUT FAMILY (props/c08layouts.py): the name m as module "
+                "file / regular package / both / package without f or empty / plain directory (data, .py inside, __pycache__ "
+                "only) next to the module file / plain directory only / f only in a submodule, at top level and inside a "
+                "package, x import spelling x call made in the target / a followed import / a followed import with a relative "
+                "import; and 10 combinations over TWO search-path entries; expected callee = the file CPython's FileFinder "
+                "binds. non-trivial = distinct (caller row, order) / (binder, shape, form) / (layout, depth, spelling, site)")
     rng = random.Random(seed)
+    import time as _time
+    _t = [_time.time()]
+    stages = {}
+
+    def stage(name):
+        now = _time.time()
+        stages[name] = round(now - _t[0], 2)
+        _t[0] = now
+
     n_variants = 4 if tier == "quick" else 24
     n_cross = 3 if tier == "quick" else 8
     tmp = Path(tempfile.mkdtemp(prefix="rattr-c08-"))
@@ -503,8 +778,45 @@ def run(tier, seed, build):
             d.mkdir()
             write_project(d, files)
             xvariants.append((d, files, rows, imports_t))
-        with ThreadPoolExecutor(max_workers=8) as ex:
-            outs = list(ex.map(lambda v: run_cli(v[0]), variants + xvariants))
+        # ---- family S: the full product binder x parameter-list shape x call form, split over several projects
+        srows = sh.build(seed, tier)
+        rng.shuffle(srows)
+        n_parts = 10
+        sparts = []
+        for i in range(n_parts):
+            part = srows[i::n_parts]
+            d = tmp / f"s{i}"
+            d.mkdir()
+            write_project(d, {**PKG_FILES, "mod.py": MOD, "target.py": shape_head() + "\n".join(r["src"] for r in part)})
+            sparts.append((d, part))
+        # ---- family L: one project per (layout, depth) (per row where a plain directory may stop rattr)
+        lprojs = []
+        for i, (layout, depth, files, rows) in enumerate(ly.all_projects()):
+            d = tmp / f"l{i}"
+            d.mkdir()
+            write_project(d, files)
+            lprojs.append((d, layout, depth, files, rows))
+        stage('generate')
+        # two search-path entries: the project directory and one more (PYTHONPATH)
+        l2projs = []
+        for i, (l0, l1) in enumerate(ly.TWO_ROOTS):
+            d = tmp / f"r{i}"
+            (d / "proj").mkdir(parents=True)
+            (d / "r1").mkdir()
+            files0, files1, rows = ly.build_two_roots(l0, l1)
+            write_project(d / "proj", files0)
+            write_project(d / "r1", files1)
+            l2projs.append((d, l0, l1, files0, files1, rows))
+        jobs = [(v[0], None) for v in variants + xvariants] + [(p[0], None) for p in sparts] + [(p[0], None) for p in lprojs] + \
+            [(p[0] / "proj", p[0] / "r1") for p in l2projs]
+        with ThreadPoolExecutor(max_workers=14) as ex:
+            outs = list(ex.map(lambda j: run_cli(*j), jobs))
+        n0 = len(variants) + len(xvariants)
+        souts = outs[n0:n0 + len(sparts)]
+        louts = outs[n0 + len(sparts):n0 + len(sparts) + len(lprojs)]
+        l2outs = outs[n0 + len(sparts) + len(lprojs):]
+        outs = outs[:n0]
+        stage('cli-runs')
         exhaustive_rows = set()
         for (d, src, cs, callers_first), (rc, out, err) in zip(variants, outs):
             order = "callers-first" if callers_first else "definitions-first"
@@ -520,10 +832,29 @@ def run(tier, seed, build):
                 continue
             cross_rows |= judge_cross(res, json.loads(out), files, rows, imports_t)
             res.sample({"cross-module": [r["name"] for r in rows[:5]]}, cap=3)
+        shape_rows, sviol = set(), []
+        for (d, part), (rc, out, err) in zip(sparts, souts):
+            if rc != 0:
+                res.violations.append({"signature": f"cli-failed:shape-family:rc={rc}", "case": {"stderr": err[-800:]}})
+                continue
+            shape_rows |= judge_shapes(res, json.loads(out), part, sviol)
+        res.violations.extend(v for _, v in sorted(sviol, key=lambda kv: kv[0]))
+        res.sample({"shape-family": [[r["binder"], r["params"], r["form"]] for r in srows[:6]]}, cap=4)
+        for (d, layout, depth, files, rows), (rc, out, err) in zip(lprojs, louts):
+            judge_layout(res, layout, depth, files, rows, d, rc, out, err)
+        for (d, l0, l1, files0, files1, rows), (rc, out, err) in zip(l2projs, l2outs):
+            judge_two_roots(res, l0, l1, files0, files1, rows, d, rc, out, err)
+        res.sample({"layout-family": sorted(ly.LAYOUTS), "two-path-entries": [list(map(str, c)) for c in ly.TWO_ROOTS]}, cap=5)
         res.extra["exhaustive"] = True
         res.extra["matrix_rows_x_orders"] = len(exhaustive_rows)
         res.extra["cross_module_rows"] = len(cross_rows)
+        res.extra["shape_family_rows"] = len(shape_rows)
+        res.extra["shape_family"] = {"binders": len(sh.BINDERS) + len(sh.BINDERS_NEVER), "shapes": len(sh.shapes()),
+                                     "shapes_with_empty_ast_args": sum(1 for _, x in sh.shapes() if sh.args_empty(x)),
+                                     "forms": len(sh.FORMS)}
+        res.extra["layout_family"] = {"layouts": len(ly.LAYOUTS), "projects": len(lprojs), "two_path_entry_projects": len(l2projs)}
 
+        stage('judge')
         # ---- correspondence: every caller of the first variant (thorough: two), and every function of the followed import,
         # through the Lean model of the ladder
         reqs, metas = [], []
@@ -550,9 +881,26 @@ def run(tier, seed, build):
             d = "model error: " + str(mo["__error__"]) if "__error__" in mo else vl.compare(im, mo)
             if d is not None:
                 res.disagreements.append({"case": {"caller": csrc}, "diff": d[:1500]})
+        stage('in-process:matrix')
+        # ---- correspondence: the shape family through the Lean model of the function analyser; the layouts through the
+        # Lean model of the locator
+        shapes_correspondence(res, model, sparts[0][0], sorted((r for r in srows if r["inproc"]), key=lambda r: int(r["name"][1:])))
+        stage('in-process:shapes')
+        firsts = {}
+        for d, layout, depth, files, rows in lprojs:
+            b = ly.python_binds(d, depth)
+            firsts.setdefault((layout, depth), (f"{layout}@depth{depth}", depth, [(d, files)], None if b[1] is None else [0, b[1]]))
+        two = []
+        for d, l0, l1, files0, files1, rows in l2projs:
+            b = ly.python_binds_two_roots(d / "proj", d / "r1")
+            two.append((f"two-roots:{l0}|{l1}", 0, [(d / "proj", files0), (d / "r1", files1)], None if b[2] is None else [b[1], b[2]]))
+        layouts_correspondence(res, model, list(firsts.values()) + two)
+        stage('in-process:layouts')
         # ---- correspondence: cross-module resolution on the real environment
         for d, files, rows, imports_t in xvariants[:3 if tier == "quick" else 6]:
             cross_correspondence(res, model, d)
+        stage('in-process:cross')
+        res.extra['stage_wall_s (informative only)'] = stages
     finally:
         shutil.rmtree(tmp, ignore_errors=True)
     res.assumptions = [
@@ -567,6 +915,16 @@ def run(tier, seed, build):
         "across an imported class is C06's)",
         "Cross.resolve takes derive_module_name_from_path and the import_irs keys as per-case data; Cross.wfCheck (the "
         "hypothesis of the cross-module theorems) is evaluated on every real environment compared",
+        "shape family: `sorted(xs, key=lambda …)` rows exist only for key lambdas with exactly ONE regular parameter (the "
+        "custom analyser raises SyntaxError otherwise: a crash, C07's subject); a lambda assigned to a local name is never "
+        "visited, so its rows expect nothing with and without shadowing",
+        "[interp] layout family: which file is 'module m' is what CPython's path finder binds (regular package > module file "
+        "> namespace portion, per search-path entry; a namespace portion loses to a regular module of a later entry). Where a "
+        "directory without __init__.py shares the name, rattr reports 'unable to find module' (the C13 finding "
+        "module-shadowed-by-non-package-directory) or crashes on a relative import (AssertionError in "
+        "visit_relative_import): no results, hence nothing inlined — the property ('inlined ONLY when') holds; 'inlined from "
+        "the file Python binds' is demanded for the layouts without such a directory. `from m import f as g` is not followed "
+        "(C06 finding import-form-not-followed:from-as): for that spelling 'not inlined' is accepted, a wrong file never",
     ]
     return res
 
